@@ -320,6 +320,9 @@ type cliCase struct {
 	Files []string `json:"files,omitempty"` // contents of f0, f1, ... in the working directory
 	// Modules: file name -> content, written into the working directory (used with -L .)
 	Modules map[string]string `json:"modules,omitempty"`
+	// TimeoutS overrides the 10 s harness watchdog (module recursion until the
+	// stack limit takes longer on a loaded machine).
+	TimeoutS int `json:"timeout_s,omitempty"`
 }
 
 var cliFlags = []string{"-r", "--raw-output", "--raw-output0", "-j", "--join-output", "-c", "--compact-output", "--indent", "--indent=3", "--indent=-1", "--indent=8", "--indent=x", "--tab", "--yaml-output", "-C", "-M", "-n", "--null-input",
@@ -354,7 +357,7 @@ func checkCLI(c cliCase) outcome {
 		s, _ := sanitize(a)
 		args[i] = s
 	}
-	r := cmdline.Run(cmdline.Opt{Stdin: stdin, Dir: dir, Env: []string{"GOMEMLIMIT=2GiB", "HOME=" + dir}, Timeout: 10 * time.Second, MaxOutput: 1 << 20}, args...)
+	r := cmdline.Run(cmdline.Opt{Stdin: stdin, Dir: dir, Env: []string{"GOMEMLIMIT=2GiB", "HOME=" + dir}, Timeout: time.Duration(max(c.TimeoutS, 10)) * time.Second, MaxOutput: 1 << 20}, args...)
 	if r.TimedOut {
 		return outcome{discard: "cli-timeout"}
 	}
@@ -557,6 +560,7 @@ func TestC08(t *testing.T) {
 		q := rapid.SampledFrom([]string{"import \"%s\" as m; m::f_%s", "include \"%s\"; f_%s", "import \"%s\" as m; 1", "\"%s\" | modulemeta", "import \"d\" as $d; $d, (\"%s%s\" | length)"}).Draw(t, "query")
 		q = strings.ReplaceAll(q, "%s", main)
 		c.Args = []string{"-n", "-c", "-L", ".", q}
+		c.TimeoutS = 180
 		rec.Eval()
 		o := checkCLI(c)
 		if o.discard != "" {
